@@ -2,6 +2,8 @@
 package main
 
 import (
+	"io"
+	"google.golang.org/grpc"
 	"context"
 	"fmt"
 	"sort"
@@ -144,6 +146,24 @@ func (w *world) check(r *sched.Run) (string, *explore.Violation) {
 				if err != nil || !resp.GetBootstrapped() {
 					return "", &explore.Violation{Key: "is-bootstrapped", Msg: fmt.Sprintf("IsBootstrapped on leader %d says false after a successful bootstrap (%v)", s.ID, err)}
 				}
+				// a timestamp stream: every request carries the cluster id, also the later ones
+				for _, ids := range [][]uint64{{srvh.ClusterID, srvh.ClusterID + 1}, {srvh.ClusterID, 0}, {srvh.ClusterID + 1}, {srvh.ClusterID, srvh.ClusterID, srvh.ClusterID - 1}} {
+					fs := &tsoStream{ctx: context.Background()}
+					for _, id := range ids {
+						fs.in = append(fs.in, &pdpb.TsoRequest{Header: &pdpb.RequestHeader{ClusterId: id}, Count: 1, DcLocation: "global"})
+					}
+					err := s.Tso(fs)
+					wantOK := 0
+					for _, id := range ids {
+						if id != srvh.ClusterID {
+							break
+						}
+						wantOK++
+					}
+					if err == nil || len(fs.out) > wantOK {
+						return "", &explore.Violation{Key: "foreign-cluster-id-accepted", Msg: fmt.Sprintf("a timestamp stream with cluster ids %v (the cluster's id is %d) was answered %d times, error %v", ids, srvh.ClusterID, len(fs.out), err)}
+					}
+				}
 				// the cluster keeps its identity: a cluster configuration carrying another cluster
 				// id (in the header or in the body) is refused and the stored meta stays as it is
 				metaKey := srvh.Root + "/raft"
@@ -177,6 +197,28 @@ func (w *world) check(r *sched.Run) (string, *explore.Violation) {
 	}
 	sort.Strings(l)
 	return strings.Join(l, ","), nil
+}
+
+// tsoStream is the server side of a Tso stream fed from a list of requests.
+type tsoStream struct {
+	grpc.ServerStream
+	ctx context.Context
+	in  []*pdpb.TsoRequest
+	out []*pdpb.TsoResponse
+}
+
+func (t *tsoStream) Context() context.Context { return t.ctx }
+func (t *tsoStream) Send(r *pdpb.TsoResponse) error {
+	t.out = append(t.out, r)
+	return nil
+}
+func (t *tsoStream) Recv() (*pdpb.TsoRequest, error) {
+	if len(t.in) == 0 {
+		return nil, io.EOF
+	}
+	r := t.in[0]
+	t.in = t.in[1:]
+	return r, nil
 }
 
 func malformed(s *srvh.Srv, kind string) *pdpb.BootstrapRequest {
